@@ -125,6 +125,7 @@ class Unit(V):
 
 
 ENUM_VARIANTS = {
+    "Either": {"Left": 0, "Right": 1},
     "Option": {"None": 0, "Some": 1},
     "Result": {"Ok": 0, "Err": 1},
     "ControlFlow": {"Continue": 0, "Break": 1},
@@ -892,7 +893,7 @@ class Interp:
             return self.const_int(ord(m.group(1)), "char")
         if c in self.models.get("__consts__", {}):
             return copy_value(self.models["__consts__"][c])
-        if c.startswith("ZeroSized:") or re.match(r"[\w:<>', ]+ \{\{ .* \}\}$", c):
+        if c.startswith("ZeroSized:") or re.match(r"[\w:<>', ]+ \{\{ .* \}\}$", c) or "PhantomData" in c:
             return Opaque("zst:" + c[:60])
         m = re.match(r"(?:std::result::)?Result::<.*>::Err\((\w+)\)$", c)
         if m:
@@ -1039,7 +1040,7 @@ class Interp:
                 v = self.operand(p, m2.group(1))
                 return Tup([copy_value(v) for _ in range(int(m2.group(2)))], "array")
             return Tup([self.operand(p, x) for x in split_top(inner)], "array")
-        m = re.match(r"(?:std::\w+::|core::\w+::)*(Option|Result|ControlFlow)::<.*?>::(\w+)(?:\((.*)\))?$", s)
+        m = re.match(r"(?:std::\w+::|core::\w+::|itertools::)*(Option|Result|ControlFlow|Either)::<.*>::(Some|None|Ok|Err|Continue|Break|Left|Right)(?:\((.*)\))?$", s)
         if m:
             variants = ENUM_VARIANTS[m.group(1)]
             idx = variants[m.group(2)]
@@ -1237,9 +1238,9 @@ class Interp:
             p.pc.append(cond)
             out.append((p, int(m.group(4))))
             return out
-        m = re.match(r"(.+?) = (.+)\((.*)\) -> \[return: bb(\d+), unwind.*\]$", s)
-        if m and self._balanced(m.group(2)):
-            dest, callee, args_s, nb = m.group(1), m.group(2), m.group(3), int(m.group(4))
+        m = self._split_call(s)
+        if m:
+            dest, callee, args_s, nb = m
             args = [self.operand(p, a) for a in split_top(args_s)]
             results = self.call(fn, p, callee, args)
             out = []
@@ -1256,6 +1257,36 @@ class Interp:
             p.outcome = ("panic", "diverging call " + m.group(2))
             return [(p, None)]
         raise Unsupported("terminator " + s)
+
+    @staticmethod
+    def _split_call(s):
+        """`dest = callee(args) -> [return: bbN, unwind ...]` with callee possibly containing parentheses (e.g. `Fn<()>`)"""
+        mm = re.match(r"(.+) -> \[return: bb(\d+), unwind.*\]$", s)
+        if not mm:
+            return None
+        head, nb = mm.group(1), int(mm.group(2))
+        i = head.find(" = ")
+        # the first top-level " = "
+        d = 0
+        for k, ch in enumerate(head):
+            if ch in "([":
+                d += 1
+            elif ch in ")]":
+                d -= 1
+            elif d == 0 and head[k:k + 3] == " = ":
+                i = k; break
+        if i < 0 or not head.endswith(")"):
+            return None
+        dest, call = head[:i], head[i + 3:]
+        d = 0
+        for k in range(len(call) - 1, -1, -1):
+            if call[k] == ")":
+                d += 1
+            elif call[k] == "(":
+                d -= 1
+                if d == 0:
+                    return dest, call[:k], call[k + 1:-1], nb
+        return None
 
     def switch(self, p, v, arms, other):
         be = self.be
